@@ -18,6 +18,7 @@ E2E_PR = e2e('pr', 'TestVerifE2EPR')
 E2E_SD = e2e('shutdown', 'TestVerifE2EShutdown')
 E2E_HS = e2e('handshake', 'TestVerifE2EHandshake', nq=192, nt=3000)
 E2E_RS = e2e('reset', 'TestVerifE2EReset')
+E2E_API = e2e('api', 'TestVerifE2EAPI')
 E2E_TD = e2e('teardown', 'TestVerifE2ETeardown', nq=150, nt=2000)
 
 E2E_RULE = ('one case = one seeded scenario (options x initial TSNs x streams/policies x message sizes x per-packet fault schedule x heal time) run on a real '
@@ -33,5 +34,6 @@ PROPS = {
     'C08': {'jobs': [E2E_SD], 'rule': E2E_RULE},
     'C04': {'jobs': [E2E_HS, E2E_T], 'rule': E2E_RULE},
     'C14': {'jobs': [E2E_RS], 'rule': E2E_RULE},
+    'C18': {'jobs': [E2E_API, E2E_SD], 'rule': E2E_RULE},
     'C09': {'jobs': [E2E_TD, E2E_SD, E2E_HS], 'rule': E2E_RULE},
 }
